@@ -2,7 +2,10 @@ use crate::pager::{PageId, Pager};
 use crate::property::PropertyValue;
 use crate::{Error, PAGE_SIZE, Result};
 use crc32fast::Hasher;
+#[cfg(not(nervusdb_verif))]
 use std::fs::{File, OpenOptions};
+#[cfg(nervusdb_verif)]
+use nervusdb_api::verif::fs::{File, OpenOptions};
 use std::io::{Read, Seek, SeekFrom, Write};
 use std::path::{Path, PathBuf};
 
@@ -556,6 +559,8 @@ impl Wal {
             tmp_file.sync_data()?;
         }
 
+        #[cfg(nervusdb_verif)]
+        use nervusdb_api::verif::std_shim as std;
         // Best-effort replace (POSIX: rename overwrites; Windows: needs remove first).
         if std::fs::rename(&tmp, &self.path).is_err() {
             if self.path.exists() {
